@@ -58,6 +58,7 @@ fn main() {
         "c17" => c17::main(args),
         "c18" => c18::main(args),
         "c19" => c19::main(args),
+        "probe" => probe(&argv[2]),
         "gensizes" => {
             print_gen_sizes();
             0
@@ -78,4 +79,68 @@ pub fn print_gen_sizes() {
             println!("depth {} loop_controls {} size {}", d, lc, g.size());
         }
     }
+}
+
+/// developer tool: `mjv probe spec.json` renders one template of a small set and prints the result.
+/// spec: {"templates": {name: source}, "render": name, "ctx": json, "trim_blocks": bool,
+/// "lstrip_blocks": bool, "undefined": "strict"|..., "fuel": n, "recursion_limit": n, "path_join": bool}
+fn probe(path: &str) -> i32 {
+    use minijinja::{Environment, UndefinedBehavior};
+    let spec: serde_json::Value = serde_json::from_str(&std::fs::read_to_string(path).expect("spec file")).expect("json");
+    let mut env = Environment::new();
+    minijinja_contrib::add_to_environment(&mut env);
+    env.set_unknown_method_callback(minijinja_contrib::pycompat::unknown_method_callback);
+    if let Some(m) = spec["templates"].as_object() {
+        for (k, v) in m {
+            if let Err(e) = env.add_template_owned(k.clone(), v.as_str().unwrap().to_string()) {
+                println!("add_template({:?}) -> Err: {:#}", k, e);
+            }
+        }
+    }
+    env.set_trim_blocks(spec["trim_blocks"].as_bool().unwrap_or(false));
+    env.set_lstrip_blocks(spec["lstrip_blocks"].as_bool().unwrap_or(false));
+    if let Some(n) = spec["fuel"].as_u64() {
+        env.set_fuel(Some(n));
+    }
+    if let Some(n) = spec["recursion_limit"].as_u64() {
+        env.set_recursion_limit(n as usize);
+    }
+    match spec["undefined"].as_str() {
+        Some("strict") => env.set_undefined_behavior(UndefinedBehavior::Strict),
+        Some("semi_strict") => env.set_undefined_behavior(UndefinedBehavior::SemiStrict),
+        Some("chainable") => env.set_undefined_behavior(UndefinedBehavior::Chainable),
+        _ => {}
+    }
+    if spec["path_join"].as_bool().unwrap_or(false) {
+        env.set_path_join_callback(|name, parent| {
+            let mut rv: Vec<&str> = parent.split('/').collect();
+            rv.pop();
+            for seg in name.split('/') {
+                match seg {
+                    "." => {}
+                    ".." => {
+                        rv.pop();
+                    }
+                    s => rv.push(s),
+                }
+            }
+            rv.join("/").into()
+        });
+    }
+    let name = spec["render"].as_str().unwrap_or("main");
+    let ctx = minijinja::value::Value::from(minijinja::value::Serde(&spec["ctx"]));
+    let r = core::catch(|| env.get_template(name).and_then(|t| t.render(ctx)));
+    match r {
+        Ok(Ok(s)) => println!("Ok: {:?}", s),
+        Ok(Err(e)) => {
+            println!("Err: {:#}\n{:?}", e, e.kind());
+            let mut src = std::error::Error::source(&e);
+            while let Some(s) = src {
+                println!("caused by: {}", s);
+                src = s.source();
+            }
+        }
+        Err(p) => println!("PANIC: {} at {}", p, core::last_panic_loc()),
+    }
+    0
 }
